@@ -925,6 +925,18 @@ def S3_normalisation(rep, flow: Flow):
             factor_nodes.append((st, st.op, st.value))
         if isinstance(st, ast.Return) and isinstance(st.value, ast.BinOp) and isinstance(st.value.left, ast.Name) and st.value.left.id == mat and isinstance(st.value.op, (ast.Mult, ast.Div)):
             factor_nodes.append((st, st.value.op, st.value.right))
+    # what is returned is the accumulated matrix itself (possibly scaled in the return): any other expression over it
+    # (a transpose, a "symmetrisation", a slice) is not modelled
+    for rt in [st for st in ast.walk(f.node) if isinstance(st, ast.Return) and st.value is not None]:
+        v = rt.value
+        plain = isinstance(v, ast.Name) and v.id == mat
+        scaled = isinstance(v, ast.BinOp) and isinstance(v.op, (ast.Mult, ast.Div)) and isinstance(v.left, ast.Name) and v.left.id == mat and not any(isinstance(x, ast.Name) and x.id == mat for x in ast.walk(v.right))
+        if not (plain or scaled):
+            uses_T = any(isinstance(x, ast.Attribute) and x.attr == "T" for x in ast.walk(v)) and not any(isinstance(x, ast.Attribute) and x.attr in ("conj", "conjugate", "H") or (isinstance(x, ast.Call) and ast.unparse(x.func).endswith(("conj", "conjugate"))) for x in ast.walk(v))
+            if uses_T:
+                rep.finding("S3", f"{A_DENSITY}:return-transpose", f"{pyfacts.where(f, rt)}: the returned matrix mixes the accumulated sum with its plain transpose (no complex conjugation): the imaginary part of the density matrix (every component with an odd number of Y) is lost [{pyfacts.norm_stmt(rt)}]")
+                return
+            raise AnalysisError(f"{pyfacts.where(f, rt)}: the density matrix is post-processed before it is returned (`{ast.unparse(v)[:80]}`): outside S3's vocabulary")
     bad = None
     simple = [st for st in f.node.body if isinstance(st, ast.Assign) and isinstance(st.targets[0], ast.Name) and st not in nqs
               and all(isinstance(x, (ast.BinOp, ast.Constant, ast.Name, ast.operator, ast.Load, ast.UnaryOp, ast.unaryop)) for x in ast.walk(st.value))]
